@@ -323,24 +323,57 @@ def judge_nested(ctx, r):
 
 # ------------------------------------------------------------------ C12 histories through the machine
 
+def partial_then_len(rng, L):
+    """a partial query (index, early-exit in/after/between/xafter, abandoned iteration) followed by count() / len-dependent queries"""
+    n = len(L)
+    t = rrlib.instants_near(L, rng, 2)
+    part = rng.choice([("idx", rng.randint(0, max(0, n - 1))), ("take", rng.randint(0, n)), ("in", t[0]), ("aft", t[0], rng.random() < 0.5),
+                       ("btw", min(t), max(t), rng.random() < 0.5), ("xaf", t[0], rng.choice([0, 1, 2]), rng.random() < 0.5),
+                       ("sl", 0, rng.randint(0, n), None), ("bef", t[0], rng.random() < 0.5)])
+    tail = rng.choice([[("cnt",)], [("cnt",), ("idx", -1)], [("cnt",), ("all",)], [("idx", -1), ("cnt",)], [("sl", -2, None, None), ("cnt",)]])
+    return [part] + tail
+
+
 def history_correspondence(ctx, rng, count):
     reqs, exp = [], []
-    for _ in range(count):
+    stash = getattr(ctx, "_qhist", [])
+    ctx._qhist = stash
+    for i in range(count):
         n = rng.choice(LENGTHS + [3, 5, 12])
         kind = rng.choice(["daily", "set"])
         fac, L = mk(kind, n)
-        cache = rng.random() < 0.7
+        cache = rng.random() < (0.7 if i % 3 else 0.3)
         rule = fac(cache)
-        qs = [rrlib.random_query(rng, L) for _ in range(rng.randint(1, 7))]
+        if i % 3 == 0:
+            qs = partial_then_len(rng, L) + [rrlib.random_query(rng, L) for _ in range(rng.randint(0, 2))]
+        else:
+            qs = [rrlib.random_query(rng, L) for _ in range(rng.randint(1, 7))]
         outs = [rrlib.impl_query(rule, q).replace(" ", "_") for q in qs]
         reqs.append("query.run %s %d %s" % (ilist(L), int(cache), ";".join(q_wire(q) for q in qs)))
         exp.append("ok " + ";".join(outs))
+        stash.append({"rule": kind, "n": n, "cache": cache, "L": L, "qs": [list(q) for q in qs], "outs": outs})
     got = ctx.driver(reqs)
     for r, e, g in zip(reqs, exp, got):
         if e != g:
             ctx.mismatch("query.run", {"request": r}, e, g)
     ctx.traces += len(reqs)
     ctx.count("corr_query_histories", len(reqs))
+
+
+def judge_query_histories(ctx):
+    """the histories the correspondence ran, against the Python-side reference (list semantics), not the model"""
+    for h in getattr(ctx, "_qhist", []):
+        L = h["L"]
+        qs = [tuple(q) for q in h["qs"]]
+        ctx.case(("qhist", h["rule"], h["n"], h["cache"], tuple(qs)), nontrivial=all(o.startswith("ok") for o in h["outs"]))
+        ctx.count("oracle_rejudged_query_histories")
+        for j, (q, o) in enumerate(zip(qs, h["outs"])):
+            want = py_query(L, q).replace(" ", "_")
+            if o != want:
+                ctx.violation("query %d (%s) of history %s on %s rule of length %d (cache=%s): got %s, list semantics %s"
+                              % (j, q_wire(q), ";".join(q_wire(x) for x in qs), h["rule"], h["n"], h["cache"], o, want),
+                              {"kind": "qhist", "rule": h["rule"], "n": h["n"], "cache": h["cache"], "qs": h["qs"]}, {"impl": o, "list": want})
+                break
 
 
 def correspondence(ctx):
@@ -417,6 +450,7 @@ def oracle(ctx):
             runs.append({"kind": "threads", "rule": kind, "n": n, "L": L, "qs": [list(q) for q in qs], "segs": [list(s) for s in segs], "res": res, "st": st})
     for r in runs:
         {"nexts": judge_nexts, "threads": judge_threads, "nested": judge_nested}[r["kind"]](ctx, r)
+    judge_query_histories(ctx)
     # a second, independent stream of random schedules (and, when escalated, the thorough budget)
     rng = ctx.subrng("oracle")
     for _ in range(ctx.budget(150, 4000)):
@@ -514,6 +548,16 @@ def replay(ctx, payload):
         L, tr, fin, res, st = run_thread_case(c["rule"], c["n"], qs, segs)
         print("replay threads n=%d queries=%s schedule=%s -> statuses %s answers %s" % (c["n"], [q_wire(q) for q in qs], sched.seg_wire(segs), st, res))
         return all(s == "done" for s in st) and all(g == py_query(L, q) for q, g in zip(qs, res))
+    if c.get("kind") == "qhist":
+        fac, L = mk(c["rule"], c["n"])
+        rule = fac(c["cache"])
+        ok = True
+        for q in c["qs"]:
+            q = tuple(q)
+            got, want = rrlib.impl_query(rule, q), py_query(L, q)
+            print("replay %s: impl=%s list=%s" % (q_wire(q), got, want))
+            ok = ok and got == want
+        return ok
     if c.get("kind") == "nested":
         ms = c["ms"]
         sets = [([tuple(x) if x[0] == "m" else ("p", x[1]) for x in a], [tuple(x) if x[0] == "m" else ("p", x[1]) for x in b]) for a, b in c["sets"]]
